@@ -148,7 +148,7 @@ func runC11(cfg hx.Config, ch *simrt.Chooser, cs *charset, text []rune, paste bo
 			w.feedHold(in[start:i])
 			start = i
 			if i < len(in) {
-				w.Tty.Faults["read_split"]++
+				w.Tty.Faults.Inc("read_split")
 			}
 		}
 	}
@@ -177,7 +177,7 @@ func runC11(cfg hx.Config, ch *simrt.Chooser, cs *charset, text []rune, paste bo
 	if w.stall {
 		mk("C11/text", "input pipeline does not reach quiescence")
 	}
-	hx.St.Record(w.S, w.Tty.Faults, func() interface{} {
+	hx.St.Record(w.S, w.Tty.Faults.Map(), func() interface{} {
 		return map[string]interface{}{"config": cfg.String(), "charset": cs.Name, "text": string(text), "bytes": fmt.Sprintf("%x", in), "cuts": cuts, "paste": paste}
 	})
 	pn, cerr := w.finish()
